@@ -95,9 +95,8 @@ Lemma gen_cfg_defaults : forall r,
 Proof.
   intros [lo pl ro mc li ov ba]. unfold cfg_defaults_atoms, g_cfg_defaults, ensure_defaults.
   cbn [rw_lockout rw_problen rw_rounds rw_minconf rw_limit rw_over rw_batch].
-  rewrite !ofN_eqb0.
-  destruct (lo <=? 0), (pl =? 0), (ro <=? 0), (mc <=? 0), (N.eqb li 0), (N.eqb ov 0), (ba <=? 0);
-    split; reflexivity.
+  rewrite <- !ofN_eqb0.
+  split; gen_split; cbn [fst snd fold_left cfg_action]; try reflexivity; exfalso; lia.
 Qed.
 
 (* DecodeOffchainConfig applies the defaults to every configuration it returns without error *)
